@@ -415,6 +415,18 @@ pub fn plain_from(class: u64, seed: u64, len: usize) -> Vec<u8> {
     v
 }
 
+/// Capacity of a real std BufReader: mostly small (so that refills fall everywhere),
+/// sometimes the sizes code tends to assume (std's default 8192, 4096, 65536) or the
+/// decoder's own constants (5, 13, 18, 20).
+pub fn draw_bufcap(t: &mut Tape, small_max: u64) -> u64 {
+    match t.below(10) {
+        0 => 8192,
+        1 => [4096u64, 65536, 8191, 8193][t.below(4) as usize],
+        2 => [1u64, 2, 3, 4, 5, 13, 18, 20, 21][t.below(9) as usize],
+        _ => t.range(1, small_max),
+    }
+}
+
 pub fn draw_bytes(t: &mut Tape, n: usize) -> Vec<u8> {
     (0..n).map(|_| t.byte()).collect()
 }
